@@ -116,6 +116,8 @@ type instRT struct {
 	ctxSeq int32
 	tick   int32
 	mu     sync.Mutex
+	// cancel function of the context handed to the latest Start ("the context is used for cancellation")
+	startCancel context.CancelFunc
 }
 
 type recMetrics struct{ rt *instRT }
@@ -521,7 +523,30 @@ func execStep(tr *Trace, store *RefStore, rts map[int]*instRT, st Step, apiSeq *
 		if rt == nil {
 			return
 		}
-		api("start", func() string { return errs(rt.el.Start(context.Background())) })
+		api("start", func() string {
+			ctx, cancel := context.WithCancel(context.Background())
+			err := rt.el.Start(ctx)
+			if err == nil {
+				rt.mu.Lock()
+				rt.startCancel = cancel
+				rt.mu.Unlock()
+			} else {
+				cancel()
+			}
+			return errs(err)
+		})
+	case "cancelctx":
+		// the application cancels the context it passed to Start
+		if rt == nil {
+			return
+		}
+		rt.mu.Lock()
+		c := rt.startCancel
+		rt.mu.Unlock()
+		tr.logf("cancelctx %d", st.Inst)
+		if c != nil {
+			c()
+		}
 	case "stop":
 		if rt == nil {
 			return
